@@ -623,3 +623,67 @@ def c18n(ctx):
                                'header with markup characters injects elements and attributes' % unparse(form)[:60])
     if n < 2:
         raise Undecided('welcome page: only %d formatted values found' % n)
+
+
+REQUEST_PATH_MODULES = ['mapproxy/layer.py', 'mapproxy/service/wms.py', 'mapproxy/service/tile.py', 'mapproxy/service/wmts.py', 'mapproxy/service/kml.py',
+                        'mapproxy/service/demo.py', 'mapproxy/service/base.py', 'mapproxy/service/ows.py', 'mapproxy/source/wms.py', 'mapproxy/source/tile.py',
+                        'mapproxy/source/arcgis.py', 'mapproxy/source/mapnik.py', 'mapproxy/source/error.py', 'mapproxy/cache/tile.py',
+                        'mapproxy/image/__init__.py', 'mapproxy/image/tile.py', 'mapproxy/image/merge.py', 'mapproxy/image/transform.py', 'mapproxy/wsgiapp.py']
+OS_LEVEL_EXCEPTIONS = {'IOError', 'OSError', 'EnvironmentError', 'Exception', 'BaseException', 'FileNotFoundError', 'PermissionError', 'UnidentifiedImageError'}
+CLIENT_ERRORS = {'RequestError', 'SourceError', 'MapError', 'MapBBOXError', 'InvalidSourceQuery', 'PlainExceptionHandler'}
+
+
+@rule('C18.o', floor=6)
+def c18o(ctx):
+    """an error document never contains a file-system path of the server: the text of an I/O level exception (IOError / OSError and what
+    PIL raises -- "cannot identify image file '/srv/cache/../000.png'", "[Errno 13] Permission denied: '/srv/..'") names the file it
+    was about.  Where the request path catches such an exception and raises one of the errors that are reported to the client, the
+    caught exception reaches the message only through error_text_without_file_names (which strips file references), never as
+    `'...%s' % ex`, str(ex) or ex.args"""
+    n = 0
+    for rel in REQUEST_PATH_MODULES:
+        if rel not in ctx.repo.modules:
+            continue
+        for fn in sorted(ctx.repo.fns_in(rel + ':'), key=lambda f: f.qn):
+            if '#' in fn.qn:
+                continue
+            for h in [x for x in fn.walk() if isinstance(x, ast.ExceptHandler)]:
+                names = ({n_.id for n_ in ast.walk(h.type) if isinstance(n_, ast.Name)} | {n_.attr for n_ in ast.walk(h.type) if isinstance(n_, ast.Attribute)}) \
+                    if h.type is not None else {'BaseException'}
+                if not (names & OS_LEVEL_EXCEPTIONS):
+                    continue
+                n += 1
+                if not h.name:
+                    ctx.ok('%s:handler@%s' % (fn.short, sorted(names)[0]), 'the exception is not bound', fn, h)
+                    continue
+                bad = []
+                for r in [x for x in ast.walk(h) if isinstance(x, ast.Raise) and x.exc is not None]:
+                    exc = r.exc
+                    if not (isinstance(exc, ast.Call) and simple_name(exc) in CLIENT_ERRORS):
+                        continue
+                    for a in list(exc.args) + [k.value for k in exc.keywords if k.arg in (None, 'msg', 'message')]:
+                        for u in [y for y in ast.walk(a) if isinstance(y, ast.Name) and y.id == h.name]:
+                            par = getattr(u, '_parent', None)
+                            clean = isinstance(par, ast.Call) and simple_name(par) == 'error_text_without_file_names'
+                            if not clean:
+                                bad.append(unparse(a)[:70])
+                k = sum(1 for o in ctx.obs if o.construct.startswith('%s:handler@' % fn.short))
+                ctx.check(not bad, '%s:handler@%s#%d' % (fn.short, sorted(names & OS_LEVEL_EXCEPTIONS)[0], k),
+                          'no client-visible error is built from the text of the caught %s' % '/'.join(sorted(names & OS_LEVEL_EXCEPTIONS)), fn, h,
+                          fail='%s puts the text of a caught %s into an error that is reported to the client (%s): the message names files of the server'
+                               % (fn.short, '/'.join(sorted(names & OS_LEVEL_EXCEPTIONS)), '; '.join(bad)))
+    if n < 6:
+        raise Undecided('only %d handlers of I/O level exceptions found on the request path' % n)
+    hp = ctx.fn('mapproxy/util/py.py:error_text_without_file_names')
+    subs = [x for x in hp.walk() if isinstance(x, ast.Call) and isinstance(x.func, ast.Attribute) and x.func.attr == 'sub']
+    pat = ctx.repo.mod('mapproxy/util/py.py').constants.get('_file_reference')
+    ptxt = const_value(pat.args[0]) if isinstance(pat, ast.Call) and pat.args else None
+    import re as _re
+    ok = bool(subs) and isinstance(ptxt, str)
+    if ok:
+        rx = _re.compile(ptxt)
+        samples = ["cannot identify image file '/srv/cache/01/000.png'", "cannot identify image file <_io.BufferedReader name='/srv/c/0.png'>",
+                   "[Errno 13] Permission denied: '/srv/cache/x'", 'cannot open /srv/cache/a.png now', 'broken C:\\\\cache\\\\a.png']
+        ok = all('/srv' not in rx.sub('', s_) and 'C:' not in rx.sub('', s_) for s_ in samples)
+    ctx.check(ok, 'error_text_without_file_names:strips-file-references', 'quoted names, object reprs and bare paths are removed from the text', hp,
+              fail='error_text_without_file_names does not remove file references from the exception text')
